@@ -240,6 +240,8 @@ struct UniCase {
     fails: Vec<u64>,
     multi_rt: bool,
     close: bool,
+    /// events whose gates open before close is called: their streams are idle again when the close starts
+    pre_release: Vec<u64>,
 }
 
 async fn run_uni<U>(case: &UniCase, log: Log)
@@ -330,6 +332,14 @@ where
     }
     // let the executors pull what their concurrency limits allow
     tokio::time::sleep(t * 10).await;
+    for v in case.pre_release.iter() {
+        if let Some(g) = gates.get(v) {
+            g.add_permits(1);
+        }
+    }
+    if !case.pre_release.is_empty() {
+        tokio::time::sleep(t * 10).await;
+    }
     if case.close {
         let (u2, l2) = (Arc::clone(&uni), log.clone());
         let closer = tokio::spawn(async move {
@@ -340,7 +350,7 @@ where
         // plenty of (virtual) time for a close that does not wait
         tokio::time::sleep(if case.multi_rt { Duration::from_millis(300) } else { Duration::from_secs(10) }).await;
         for v in case.events.iter() {
-            if !(with_timeout && case.slow.contains(v)) {
+            if !(with_timeout && case.slow.contains(v)) && !case.pre_release.contains(v) {
                 gates[v].add_permits(1);
                 tokio::time::sleep(t).await;
             }
@@ -428,6 +438,7 @@ fn run_case(c: &Value) -> (Vec<Value>, Value) {
                         fails: nums(&c2["fails"]),
                         multi_rt,
                         close: c2["close"].as_bool().unwrap_or(true),
+                        pre_release: nums(&c2["pre_release"]),
                     };
                     let chan = c2["chan"].as_str().unwrap().to_string();
                     let s = c2["s"].as_u64().unwrap_or(1);
